@@ -113,10 +113,11 @@ func (p *storeProxy) ReceiveBlob(ctx context.Context, br blob.Ref, src io.Reader
 		case 2:
 			w.fault("dst.receive:wrong-size")
 			data, _ := io.ReadAll(src)
-			if len(data) > 0 {
-				data = data[:len(data)-1]
+			wrong := len(data) - 1 // stores nothing, reports a short size
+			if len(data) == 0 {
+				wrong = 1 // (the empty blob: a size that is too large)
 			}
-			return blob.SizedRef{Ref: br, Size: uint32(len(data))}, nil // stores nothing, reports a short size
+			return blob.SizedRef{Ref: br, Size: uint32(wrong)}, nil
 		}
 	}
 	return p.m.ReceiveBlob(ctx, br, src)
@@ -278,6 +279,7 @@ func (w *world) start(n int) (*gen, error) {
 var (
 	bA = hs.Mk("a", []byte("blob a"), "")
 	bB = hs.Mk("b", []byte("blob bb"), "")
+	bE = hs.Mk("empty", []byte{}, "") // the empty blob: its queue row has the value "0"
 )
 
 type program struct {
@@ -296,6 +298,7 @@ var programs = []program{
 	{name: "upload-a;b||crash+restart", uploads: [][]hs.Blob{{bA, bB}}, crash: true},
 	{name: "queued-a,restart||upload-b", uploads: [][]hs.Blob{{bB}}, preload: []hs.Blob{bA}},
 	{name: "two-destinations/upload-a", uploads: [][]hs.Blob{{bA}}, ndst: 2},
+	{name: "queued-empty,restart||upload-b", uploads: [][]hs.Blob{{bB}}, preload: []hs.Blob{bE}},
 }
 
 func scenario(p program, bound, cbound int) *sched.Config {
